@@ -1,36 +1,48 @@
 (* Properties_C01mp.v — the MsgPack half of C01 at the typed level: a value tree saved through the
-   archive loads back to the same tree.  Statements only.
+   archive loads back to the same tree, into a target that holds anything; and loading into a populated
+   target (C18) at the MsgPack document level.  Statements only.
 
    tv / save / abs / wf_tv: the typed save model (MpSaveModel.v; save_decodes: MpSave.v).
-   shape, has_shape, load_spec / load_tr / load_toks, load_bytes, elem_prog / member_prog / class_prog /
-   vec_prog, read_off: MpLoadModel.v — the generic serialization layer driving the read scopes for a
-   target of a static shape (scalars, string, byte container, sequence containers, classes with string-named
-   members loaded in declaration order, std::map<K, V> with K = std::string or an integer type: SMap ks e,
-   std::array<T, N> / T[N]: SArr n e, std::vector<bool>: SVecBool, std::tuple<T...>: STuple ss; std::pair is the
-   class with the members "key" and "value").
-   has_shape (TObj kvs) (SMap ks e): the keys are of the key type ks and STRICTLY INCREASING (std::less<K>:
+   shape, has_shape, load_spec / load_tr / load_toks, load_bytes / load_bytes_into, elem_prog / member_prog /
+   vact_prog / class_prog / map_prog / vec_prog / tuple_prog, read_off: MpLoadModel.v — the generic serialization
+   layer driving the read scopes for a target of a static shape (scalars, string, byte container, sequence
+   containers, classes with string-named members loaded in declaration order, std::map<K, V> with K = std::string
+   or an integer type loaded in mode m: SMap m ks e, std::array<T, N> / T[N]: SArr n e, std::vector<bool>: SVecBool,
+   std::tuple<T...>: STuple ss; std::pair is the class with the members "key" and "value").
+   THE TARGET HOLDS A CONTENT i WHEN THE LOAD STARTS: load_tr s i v = (the scopes' answers as tokens, the result:
+   LOk x = loaded, the target holds x; LNot = not loaded, the target still holds i; LErr = exception) at the
+   association-list level; load_bytes_into s i b = reference decoder, then that; load_bytes = into default_of s.
+   mmode = MapLoadMode: MClean | MOnlyExist | MUpdate.
+   has_shape (TObj kvs) (SMap m ks e): the keys are of the key type ks and STRICTLY INCREASING (std::less<K>:
    integers by value, strings bytewise as unsigned char, a proper prefix first) — a std::map value.
-   map_free s: the shape has no std::map.
-   load_tr s v = (the scopes' answers as tokens, the loaded value)
-   at the association-list level; elem_prog / member_prog = the request program issued on that document;
-   spec_reqs / spec_areqs: the association-list semantics of request programs (MpScopeSpec.v);
+   map_free s: the shape has no std::map.  clean_maps s: every std::map of the shape is loaded with Clean.
+   overwritten s: the target keeps nothing of its content when loaded (no class, fixed-size array, tuple, no map in
+   another mode than Clean inside).
+   elem_prog / member_prog / vact_prog = the request program issued on that document for a target holding i;
+   spec_reqs / spec_areqs / spec_vact(s): the association-list semantics of request programs (MpScopeSpec.v);
    run_obj_root / run_arr_root / load_obj / load_arr: the scope MODEL on the bytes (MpScopeModel.v).
    doc_ok (abs v): the keys of every class in v are pairwise different (key_eq; for string names: different
-   byte strings) — "keys_ok".  bytes b: all < 256.  narrow / widen: the C++ float conversions (any).
-   NOT covered (see the end): MapLoadMode other than Clean, key conversions between text and number. *)
+   byte strings) — "keys_ok".  bytes b: all < 256.  narrow / widen: the C++ float conversions (any). *)
 From BS Require Import Base MpSpec MpModel MpLemmas MpReader MpTyped MpSaveModel MpSave
   MpScopeSpec MpScopeModel MpScopeLemmas MpScopeTyped MpScopeProofs MpScopeRefine MpLoadModel MpLoadProofs.
 Local Open Scope N_scope.
 
 (* ---- save then load ---- *)
-(* load = reference decoder, then load_spec: for every value tree of the target's shape, whatever the
-   policies, the bytes SaveObject produces load back to exactly that tree.  This covers classes (TObj with string
-   names against SClass), std::map<std::string, ...> and std::map<integer type, ...> (TObj with TStr / TInt keys
-   against SMap) at any depth.  Key conditions, all inside the hypotheses: has_shape gives keys of the map's key
-   type in strictly increasing order (hence pairwise different), wf_tv gives integer keys in the range of their
-   type, doc_ok (abs v) gives pairwise different member names in every class *)
+(* for every value tree of the target's shape, whatever the policies AND WHATEVER THE TARGET HOLDS, the bytes
+   SaveObject produces load back to exactly that tree (std::map targets loaded with Clean).  This covers classes,
+   std::map<std::string, ...> / std::map<integer type, ...>, fixed-size arrays, tuples, vector<bool> at any depth.
+   Key conditions, all inside the hypotheses: has_shape gives keys of the map's key type in strictly increasing
+   order (hence pairwise different), wf_tv gives integer keys in the range of their type, doc_ok (abs v) gives
+   pairwise different member names in every class *)
+Theorem T_C01_mp_load_save_into : forall narrow widen o v s i b,
+  has_shape v s = true -> clean_maps s = true -> wf_tv v -> doc_ok (abs v) = true -> save v = Some b ->
+  load_bytes_into narrow widen o s i b = LOk v.
+Proof. exact load_save_into. Qed.
+Print Assumptions T_C01_mp_load_save_into.
+
+(* ... into a value-initialised target (LoadObject into a fresh object) *)
 Theorem T_C01_mp_load_save : forall narrow widen o v s b,
-  has_shape v s = true -> wf_tv v -> doc_ok (abs v) = true -> save v = Some b ->
+  has_shape v s = true -> clean_maps s = true -> wf_tv v -> doc_ok (abs v) = true -> save v = Some b ->
   load_bytes narrow widen o s b = LOk v.
 Proof. exact load_save. Qed.
 Print Assumptions T_C01_mp_load_save.
@@ -40,172 +52,226 @@ Print Assumptions T_C01_mp_load_save.
 Theorem T_C01_mp_load_save_shape_of : forall narrow widen o v b,
   has_shape v (shape_of v) = true -> wf_tv v -> doc_ok (abs v) = true -> save v = Some b ->
   load_bytes narrow widen o (shape_of v) b = LOk v.
-Proof. exact (fun narrow widen o v => load_save narrow widen o v (shape_of v)). Qed.
+Proof. exact (fun narrow widen o v b Hs => load_save narrow widen o v (shape_of v) b Hs (shape_of_clean v)). Qed.
 Print Assumptions T_C01_mp_load_save_shape_of.
 
 (* at the association-list level, with the answers consumed *)
-Theorem T_C01_mp_load_save_spec : forall narrow widen o v s,
-  has_shape v s = true -> wf_tv v -> doc_ok (abs v) = true ->
-  exists toks, load_tr narrow widen o s (abs v) = (toks, LOk v).
+Theorem T_C01_mp_load_save_spec : forall narrow widen o v s i,
+  has_shape v s = true -> clean_maps s = true -> wf_tv v -> doc_ok (abs v) = true ->
+  exists toks, load_tr narrow widen o s i (abs v) = (toks, LOk v).
 Proof. exact load_save_spec. Qed.
 Print Assumptions T_C01_mp_load_save_spec.
 
+(* ---- loading into a populated target (C18 at the MsgPack document level) ---- *)
+(* a target that keeps nothing (values, strings, byte containers, vector<bool>, sequence containers and Clean maps of
+   such): whatever it holds, EVERY document is loaded with the same answers and the same result as into a fresh one *)
+Theorem T_C18_mp_populated_is_fresh : forall narrow widen o s, overwritten s = true ->
+  forall i v, load_tr narrow widen o s i v = load_tr narrow widen o s (default_of s) v.
+Proof. intros narrow widen o s H i v. exact (overwritten_indep narrow widen o s H i (default_of s) v). Qed.
+Print Assumptions T_C18_mp_populated_is_fresh.
+
+(* MapLoadMode::Clean, whatever the mapped values are (classes included) and whatever the map holds: as into an
+   empty map — nothing of the old content survives, neither keys nor mapped values *)
+Theorem T_C18_mp_clean_is_fresh : forall narrow widen o ks e i v,
+  load_tr narrow widen o (SMap MClean ks e) i v = load_tr narrow widen o (SMap MClean ks e) (TObj []) v.
+Proof. intros. reflexivity. Qed.
+Print Assumptions T_C18_mp_clean_is_fresh.
+
+(* OnlyExistKeys never adds a key (nor removes one), whatever the document: the keys after the load are the keys before *)
+Theorem T_C18_mp_only_exist_keeps_keys : forall narrow widen o ks e m0 v toks x,
+  load_tr narrow widen o (SMap MOnlyExist ks e) (TObj m0) v = (toks, LOk x) ->
+  exists m', x = TObj m' /\ map fst m' = map fst m0.
+Proof. exact only_exist_keeps_keys. Qed.
+Print Assumptions T_C18_mp_only_exist_keeps_keys.
+
+(* UpdateKeys (and OnlyExistKeys) never removes a key, whatever the document *)
+Theorem T_C18_mp_update_keeps_keys : forall narrow widen o m ks e m0 v toks x, m <> MClean ->
+  load_tr narrow widen o (SMap m ks e) (TObj m0) v = (toks, LOk x) ->
+  exists m', x = TObj m' /\ forall k, In k (map fst m0) -> In k (map fst m').
+Proof. exact update_keeps_keys. Qed.
+Print Assumptions T_C18_mp_update_keeps_keys.
+
+(* UpdateKeys into an empty map is Clean *)
+Theorem T_C18_mp_update_empty_is_clean : forall narrow widen o ks e i v,
+  load_tr narrow widen o (SMap MUpdate ks e) (TObj []) v = load_tr narrow widen o (SMap MClean ks e) i v.
+Proof. intros. reflexivity. Qed.
+Print Assumptions T_C18_mp_update_empty_is_clean.
+
+(* std::map<string, int32> holding { a:1, c:3 }, document { b:20, c:30 }: Clean { b:20, c:30 }; OnlyExistKeys
+   { a:1, c:30 }; UpdateKeys { a:1, b:20, c:30 }.  And what is NOT overwritten (known finding F36 of C18, by design):
+   { "a": 5 } into a class { a; b } holding { 1; 2 } gives { 5; 2 } *)
+Example T_C18_mp_modes_example :
+  load_bytes_into no_narrow id_widen skip_all (pop_map MClean) pop_prior pop_doc = LOk (TObj [(TStr [0x62], TInt IS32 20); (TStr [0x63], TInt IS32 30)]) /\
+  load_bytes_into no_narrow id_widen skip_all (pop_map MOnlyExist) pop_prior pop_doc = LOk (TObj [(TStr [0x61], TInt IS32 1); (TStr [0x63], TInt IS32 30)]) /\
+  load_bytes_into no_narrow id_widen skip_all (pop_map MUpdate) pop_prior pop_doc =
+    LOk (TObj [(TStr [0x61], TInt IS32 1); (TStr [0x62], TInt IS32 20); (TStr [0x63], TInt IS32 30)]).
+Proof. exact pop_map_modes. Qed.
+Print Assumptions T_C18_mp_modes_example.
+
+Example T_C18_mp_class_keeps_example :
+  load_bytes_into no_narrow id_widen skip_all pop_shape (TObj [(TStr [0x61], TInt IS32 1); (TStr [0x62], TInt IS32 2)]) [0x81; 0xA1; 0x61; 0x05] =
+    LOk (TObj [(TStr [0x61], TInt IS32 5); (TStr [0x62], TInt IS32 2)]).
+Proof. exact pop_class_keeps. Qed.
+Print Assumptions T_C18_mp_class_keeps_example.
+
 (* ---- the link to the scopes: programs, answers, read-off ---- *)
-(* the association-list SPEC evaluates the program issued for an element of shape s on the document value
+(* the association-list SPEC evaluates the program issued for an element of shape s holding i on the document value
    v to exactly the tokens load_tr consumes (error-free loads; an element is consumed) ... *)
-Theorem T_C01_mp_elem_program : forall narrow widen o s v vs toks r,
+Theorem T_C01_mp_elem_program : forall narrow widen o s i v vs toks r,
   (map_free s = true \/ doc_ok v = true) ->
-  load_tr narrow widen o s v = (toks, r) -> no_err r ->
-  exists c, spec_areqs narrow widen o (v :: vs) (mk_areqs (elem_prog o s v)) = ((toks, None, c), vs).
+  load_tr narrow widen o s i v = (toks, r) -> no_err r ->
+  exists c, spec_areqs narrow widen o (v :: vs) (mk_areqs (elem_prog o s i v)) = ((toks, None, c), vs).
 Proof. exact (fun narrow widen o s => proj1 (progs_ok narrow widen o s)). Qed.
 Print Assumptions T_C01_mp_elem_program.
 
 (* ... and the program issued for a class member named q (present or absent in the document) *)
-Theorem T_C01_mp_member_program : forall narrow widen o s q kvs toks r,
+Theorem T_C01_mp_member_program : forall narrow widen o s i q kvs toks r,
   (forall x, lookup (key_of_q q) kvs = Some x -> map_free s = true \/ doc_ok x = true) ->
-  member_tr narrow widen o s (lookup (key_of_q q) kvs) = (toks, r) -> no_err r ->
-  exists c, spec_reqs narrow widen o kvs (mk_reqs (member_prog o s q (lookup (key_of_q q) kvs))) = (toks, None, c).
+  member_tr narrow widen o s i (lookup (key_of_q q) kvs) = (toks, r) -> no_err r ->
+  exists c, spec_reqs narrow widen o kvs (mk_reqs (member_prog o s i q (lookup (key_of_q q) kvs))) = (toks, None, c).
 Proof. exact (fun narrow widen o s => proj1 (proj2 (progs_ok narrow widen o s))). Qed.
 Print Assumptions T_C01_mp_member_program.
 
 (* ... and the keyed load SerializeMapImpl makes from inside the VisitKeys callback for a mapped value of shape s,
    under a key q that finds x *)
-Theorem T_C01_mp_mapped_program : forall narrow widen o s q kvs x toks r,
+Theorem T_C01_mp_mapped_program : forall narrow widen o s i q kvs x toks r,
   lookup (key_of_q q) kvs = Some x -> (map_free s = true \/ doc_ok x = true) ->
-  load_tr narrow widen o s x = (toks, r) -> no_err r ->
-  exists c, spec_vact narrow widen o kvs q (vact_prog o s x) = (toks, None, c).
+  load_tr narrow widen o s i x = (toks, r) -> no_err r ->
+  exists c, spec_vact narrow widen o kvs q (vact_prog o s i x) = (toks, None, c).
 Proof. exact (fun narrow widen o s => proj2 (proj2 (progs_ok narrow widen o s))). Qed.
 Print Assumptions T_C01_mp_mapped_program.
 
-(* the whole callback sequence of a std::map on a well-formed object document: key conversion, keys that do not
-   fit passed over (Skip policy), one keyed load per remaining member in document order *)
-Theorem T_C01_mp_map_program : forall narrow widen o ks e kvs toks es,
+(* the whole callback sequence of a std::map holding m0 on a well-formed object document, in any mode (only = the
+   mode is OnlyExistKeys): key conversion, keys that do not fit passed over (Skip policy), keys the map does not
+   have passed over (OnlyExistKeys), one keyed load per remaining member in document order *)
+Theorem T_C01_mp_map_program : forall narrow widen o only ks e m0 kvs toks es,
   doc_ok (MMap kvs) = true ->
-  entries_tr o ks e (load_tr narrow widen o e) kvs = (toks, es, None) ->
-  exists c, spec_vacts narrow widen o kvs kvs (mk_vacts (map_acts o ks (vact_prog o e) kvs)) = (toks, None, c).
+  entries_tr o only ks e (load_tr narrow widen o e) m0 kvs = (toks, es, None) ->
+  exists c, spec_vacts narrow widen o kvs kvs (mk_vacts (map_acts o only ks (default_of e) (vact_prog o e) m0 kvs)) = (toks, None, c).
 Proof.
-  intros narrow widen o ks e kvs toks es Hok H.
-  exact (entries_loop narrow widen o ks e kvs (proj2 (proj2 (progs_ok narrow widen o e))) Hok kvs [] eq_refl toks es H).
+  intros narrow widen o only ks e m0 kvs toks es Hok H.
+  exact (entries_loop narrow widen o only ks e m0 kvs (proj2 (proj2 (progs_ok narrow widen o e))) Hok kvs [] eq_refl toks es H).
 Qed.
 Print Assumptions T_C01_mp_map_program.
 
-(* the loaded value is determined by those tokens alone: read_off re-reads it (shapes without std::map: the keys
-   a map is built from are handed to the callback, they are not among the tokens) *)
-Theorem T_C01_mp_read_off : forall narrow widen o s v,
-  map_free s = true -> no_err (load_spec narrow widen o s v) ->
-  read_off s (load_toks narrow widen o s v) = Some (load_spec narrow widen o s v, []).
+(* the loaded value is determined by those tokens and the content of the target alone: read_off re-reads it (shapes
+   without std::map: the keys a map is built from are handed to the callback, they are not among the tokens) *)
+Theorem T_C01_mp_read_off : forall narrow widen o s i v,
+  map_free s = true -> no_err (load_spec narrow widen o s i v) ->
+  read_off s i (load_toks narrow widen o s i v) = Some (load_spec narrow widen o s i v, []).
 Proof. exact read_off_load. Qed.
 Print Assumptions T_C01_mp_read_off.
 
 (* ---- transport to the scope model on the bytes (through T_C03_mp_refines) ---- *)
-(* any well-formed object document, any class shape, error-free load: the scope MODEL run on the bytes
-   with the class's request program answers exactly load_tr's tokens, ends right behind the document,
+(* any well-formed object document, any class shape, any content of the target, error-free load: the scope MODEL run
+   on the bytes with the class's request program answers exactly load_tr's tokens, ends right behind the document,
    no scope failed to close (flag clear), Finalize() passes *)
-Theorem T_C01_mp_load_class_on_model : forall narrow widen o data kvs rest ms toks r,
+Theorem T_C01_mp_load_class_on_model : forall narrow widen o data kvs rest ms i toks r,
   bytes data -> decode data = Some (MMap kvs, rest) -> doc_ok (MMap kvs) = true ->
-  load_tr narrow widen o (SClass ms) (MMap kvs) = (toks, r) -> no_err r ->
-  run_obj_root narrow widen o data (class_prog o ms kvs) = Done toks rest false /\
-  load_obj narrow widen o data (class_prog o ms kvs) = MpScopeModel.LOk toks rest.
+  load_tr narrow widen o (SClass ms) i (MMap kvs) = (toks, r) -> no_err r ->
+  run_obj_root narrow widen o data (class_prog o ms i kvs) = Done toks rest false /\
+  load_obj narrow widen o data (class_prog o ms i kvs) = MpScopeModel.LOk toks rest.
 Proof. exact load_class_on_model. Qed.
 Print Assumptions T_C01_mp_load_class_on_model.
 
-Theorem T_C01_mp_load_vec_on_model : forall narrow widen o data vs rest e toks r,
+Theorem T_C01_mp_load_vec_on_model : forall narrow widen o data vs rest e i toks r,
   bytes data -> decode data = Some (MArr vs, rest) -> doc_ok (MArr vs) = true ->
-  load_tr narrow widen o (SVec e) (MArr vs) = (toks, r) -> no_err r ->
-  run_arr_root narrow widen o data (vec_prog o e vs) = Done toks rest false /\
-  load_arr narrow widen o data (vec_prog o e vs) = MpScopeModel.LOk toks rest.
+  load_tr narrow widen o (SVec e) i (MArr vs) = (toks, r) -> no_err r ->
+  run_arr_root narrow widen o data (vec_prog o e i vs) = Done toks rest false /\
+  load_arr narrow widen o data (vec_prog o e i vs) = MpScopeModel.LOk toks rest.
 Proof. exact load_vec_on_model. Qed.
 Print Assumptions T_C01_mp_load_vec_on_model.
 
 (* a fixed-size array (std::array<e, n>, e[n]) at the root: an error-free load — the document has exactly n
-   elements — issues the program of a sequence container and consumes the same answers; any other count ends in
-   OutOfRange (load_tr; see T_C01_mp_fixed_example) *)
-Theorem T_C01_mp_load_fixed_on_model : forall narrow widen o data vs rest n e toks r,
+   elements — issues the program of a sequence container and consumes the same answers (an element that is not
+   loaded keeps its content); any other count ends in OutOfRange (load_tr; see T_C01_mp_fixed_example) *)
+Theorem T_C01_mp_load_fixed_on_model : forall narrow widen o data vs rest n e i toks r,
   bytes data -> decode data = Some (MArr vs, rest) -> doc_ok (MArr vs) = true ->
-  load_tr narrow widen o (SArr n e) (MArr vs) = (toks, r) -> no_err r ->
-  run_arr_root narrow widen o data (vec_prog o e vs) = Done toks rest false /\
-  load_arr narrow widen o data (vec_prog o e vs) = MpScopeModel.LOk toks rest.
+  load_tr narrow widen o (SArr n e) i (MArr vs) = (toks, r) -> no_err r ->
+  run_arr_root narrow widen o data (vec_prog o e i vs) = Done toks rest false /\
+  load_arr narrow widen o data (vec_prog o e i vs) = MpScopeModel.LOk toks rest.
 Proof. exact load_fixed_on_model. Qed.
 Print Assumptions T_C01_mp_load_fixed_on_model.
 
 (* a std::tuple at the root (loader of 9e55af6): IsEnd() and one load per component while the array has elements; a
    shorter document array (Skip policy) leaves the remaining components as they are; the end check; elements left over
    are passed by the scope's destructor.  An error raised inside a component propagates (M02, fixed) *)
-Theorem T_C01_mp_load_tuple_on_model : forall narrow widen o data vs rest ss toks r,
+Theorem T_C01_mp_load_tuple_on_model : forall narrow widen o data vs rest ss i toks r,
   bytes data -> decode data = Some (MArr vs, rest) -> doc_ok (MArr vs) = true ->
-  load_tr narrow widen o (STuple ss) (MArr vs) = (toks, r) -> no_err r ->
-  run_arr_root narrow widen o data (tuple_prog o ss vs) = Done toks rest false /\
-  load_arr narrow widen o data (tuple_prog o ss vs) = MpScopeModel.LOk toks rest.
+  load_tr narrow widen o (STuple ss) i (MArr vs) = (toks, r) -> no_err r ->
+  run_arr_root narrow widen o data (tuple_prog o ss i vs) = Done toks rest false /\
+  load_arr narrow widen o data (tuple_prog o ss i vs) = MpScopeModel.LOk toks rest.
 Proof. exact load_tuple_on_model. Qed.
 Print Assumptions T_C01_mp_load_tuple_on_model.
 
 (* std::vector<bool> at the root: the program and the answers of a sequence container of bool (the loaded value
    differs: an element that does not load repeats the previous one) *)
-Theorem T_C01_mp_load_vector_bool_on_model : forall narrow widen o data vs rest toks r,
+Theorem T_C01_mp_load_vector_bool_on_model : forall narrow widen o data vs rest i toks r,
   bytes data -> decode data = Some (MArr vs, rest) -> doc_ok (MArr vs) = true ->
-  load_tr narrow widen o SVecBool (MArr vs) = (toks, r) -> no_err r ->
-  run_arr_root narrow widen o data (mk_areqs (vec_body bool_prog vs)) = Done toks rest false /\
-  load_arr narrow widen o data (mk_areqs (vec_body bool_prog vs)) = MpScopeModel.LOk toks rest.
+  load_tr narrow widen o SVecBool i (MArr vs) = (toks, r) -> no_err r ->
+  run_arr_root narrow widen o data (mk_areqs (vec_body bool_prog (TBool false) [] vs)) = Done toks rest false /\
+  load_arr narrow widen o data (mk_areqs (vec_body bool_prog (TBool false) [] vs)) = MpScopeModel.LOk toks rest.
 Proof. exact load_vb_on_model. Qed.
 Print Assumptions T_C01_mp_load_vector_bool_on_model.
 
-(* a std::map at the root: the program is VisitKeys with one keyed load per member from inside the callback *)
-Theorem T_C01_mp_load_map_on_model : forall narrow widen o data kvs rest ks e toks r,
+(* a std::map at the root, in ANY load mode, holding anything: the program is VisitKeys with one keyed load per member
+   (that the mode lets through) from inside the callback *)
+Theorem T_C01_mp_load_map_on_model : forall narrow widen o data kvs rest m ks e i toks r,
   bytes data -> decode data = Some (MMap kvs, rest) -> doc_ok (MMap kvs) = true ->
-  load_tr narrow widen o (SMap ks e) (MMap kvs) = (toks, r) -> no_err r ->
-  run_obj_root narrow widen o data (map_prog o ks e kvs) = Done toks rest false /\
-  load_obj narrow widen o data (map_prog o ks e kvs) = MpScopeModel.LOk toks rest.
+  load_tr narrow widen o (SMap m ks e) i (MMap kvs) = (toks, r) -> no_err r ->
+  run_obj_root narrow widen o data (map_prog o m ks e i kvs) = Done toks rest false /\
+  load_obj narrow widen o data (map_prog o m ks e i kvs) = MpScopeModel.LOk toks rest.
 Proof. exact load_map_on_model. Qed.
 Print Assumptions T_C01_mp_load_map_on_model.
 
 (* save then load, scope-model form: the history run on the saved bytes b with the MODEL gives the tokens from
-   which the saved tree is read off, ends at the end of b, close flag clear *)
-Theorem T_C01_mp_load_save_on_model : forall narrow widen o kvs ms b,
-  has_shape (TObj kvs) (SClass ms) = true -> wf_tv (TObj kvs) -> doc_ok (abs (TObj kvs)) = true ->
+   which the saved tree is read off, ends at the end of b, close flag clear — whatever the target holds *)
+Theorem T_C01_mp_load_save_on_model : forall narrow widen o kvs ms i b,
+  has_shape (TObj kvs) (SClass ms) = true -> clean_maps (SClass ms) = true -> wf_tv (TObj kvs) -> doc_ok (abs (TObj kvs)) = true ->
   save (TObj kvs) = Some b -> bytes b ->
-  exists toks, load_tr narrow widen o (SClass ms) (abs (TObj kvs)) = (toks, LOk (TObj kvs)) /\
-    run_obj_root narrow widen o b (class_prog o ms (map absp kvs)) = Done toks [] false /\
-    load_obj narrow widen o b (class_prog o ms (map absp kvs)) = MpScopeModel.LOk toks [].
+  exists toks, load_tr narrow widen o (SClass ms) i (abs (TObj kvs)) = (toks, LOk (TObj kvs)) /\
+    run_obj_root narrow widen o b (class_prog o ms i (map absp kvs)) = Done toks [] false /\
+    load_obj narrow widen o b (class_prog o ms i (map absp kvs)) = MpScopeModel.LOk toks [].
 Proof. exact load_save_class_on_model. Qed.
 Print Assumptions T_C01_mp_load_save_on_model.
 
-Theorem T_C01_mp_load_save_map_on_model : forall narrow widen o kvs ks e b,
-  has_shape (TObj kvs) (SMap ks e) = true -> wf_tv (TObj kvs) -> doc_ok (abs (TObj kvs)) = true ->
+Theorem T_C01_mp_load_save_map_on_model : forall narrow widen o kvs ks e i b,
+  has_shape (TObj kvs) (SMap MClean ks e) = true -> clean_maps e = true -> wf_tv (TObj kvs) -> doc_ok (abs (TObj kvs)) = true ->
   save (TObj kvs) = Some b -> bytes b ->
-  exists toks, load_tr narrow widen o (SMap ks e) (abs (TObj kvs)) = (toks, LOk (TObj kvs)) /\
-    run_obj_root narrow widen o b (map_prog o ks e (map absp kvs)) = Done toks [] false /\
-    load_obj narrow widen o b (map_prog o ks e (map absp kvs)) = MpScopeModel.LOk toks [].
+  exists toks, load_tr narrow widen o (SMap MClean ks e) i (abs (TObj kvs)) = (toks, LOk (TObj kvs)) /\
+    run_obj_root narrow widen o b (map_prog o MClean ks e i (map absp kvs)) = Done toks [] false /\
+    load_obj narrow widen o b (map_prog o MClean ks e i (map absp kvs)) = MpScopeModel.LOk toks [].
 Proof. exact load_save_map_on_model. Qed.
 Print Assumptions T_C01_mp_load_save_map_on_model.
 
-Theorem T_C01_mp_load_save_vec_on_model : forall narrow widen o l e b,
-  has_shape (TArr l) (SVec e) = true -> wf_tv (TArr l) -> doc_ok (abs (TArr l)) = true ->
+Theorem T_C01_mp_load_save_vec_on_model : forall narrow widen o l e i b,
+  has_shape (TArr l) (SVec e) = true -> clean_maps e = true -> wf_tv (TArr l) -> doc_ok (abs (TArr l)) = true ->
   save (TArr l) = Some b -> bytes b ->
-  exists toks, load_tr narrow widen o (SVec e) (abs (TArr l)) = (toks, LOk (TArr l)) /\
-    run_arr_root narrow widen o b (vec_prog o e (map abs l)) = Done toks [] false /\
-    load_arr narrow widen o b (vec_prog o e (map abs l)) = MpScopeModel.LOk toks [].
+  exists toks, load_tr narrow widen o (SVec e) i (abs (TArr l)) = (toks, LOk (TArr l)) /\
+    run_arr_root narrow widen o b (vec_prog o e i (map abs l)) = Done toks [] false /\
+    load_arr narrow widen o b (vec_prog o e i (map abs l)) = MpScopeModel.LOk toks [].
 Proof. exact load_save_vec_on_model. Qed.
 Print Assumptions T_C01_mp_load_save_vec_on_model.
 
 (* ---- members the class does not declare; order of the members ---- *)
 (* the result depends on the document only through what is stored under the declared member names *)
-Theorem T_C01_mp_load_class_ext : forall narrow widen o kvs kvs' ms,
+Theorem T_C01_mp_load_class_ext : forall narrow widen o kvs kvs' ms i,
   (forall name s', In (name, s') ms -> lookup (KStr name) kvs = lookup (KStr name) kvs') ->
-  load_tr narrow widen o (SClass ms) (MMap kvs) = load_tr narrow widen o (SClass ms) (MMap kvs').
+  load_tr narrow widen o (SClass ms) i (MMap kvs) = load_tr narrow widen o (SClass ms) i (MMap kvs').
 Proof. exact load_class_ext. Qed.
 Print Assumptions T_C01_mp_load_class_ext.
 
 (* extra members (anywhere in the document) under names the class does not declare change nothing *)
-Theorem T_C01_mp_load_ignores_extra : forall narrow widen o ms pre extra post,
+Theorem T_C01_mp_load_ignores_extra : forall narrow widen o ms i pre extra post,
   (forall name s', In (name, s') ms -> lookup (KStr name) extra = None) ->
-  load_tr narrow widen o (SClass ms) (MMap (pre ++ extra ++ post)) = load_tr narrow widen o (SClass ms) (MMap (pre ++ post)).
+  load_tr narrow widen o (SClass ms) i (MMap (pre ++ extra ++ post)) = load_tr narrow widen o (SClass ms) i (MMap (pre ++ post)).
 Proof. exact load_ignores_extra. Qed.
 Print Assumptions T_C01_mp_load_ignores_extra.
 
 (* two well-formed documents with the same members in any order load to the same value (tokens included) *)
-Theorem T_C01_mp_load_order_free : forall narrow widen o ms kvs kvs',
+Theorem T_C01_mp_load_order_free : forall narrow widen o ms i kvs kvs',
   doc_ok (MMap kvs) = true -> doc_ok (MMap kvs') = true -> (forall kv, In kv kvs <-> In kv kvs') ->
-  load_tr narrow widen o (SClass ms) (MMap kvs) = load_tr narrow widen o (SClass ms) (MMap kvs').
+  load_tr narrow widen o (SClass ms) i (MMap kvs) = load_tr narrow widen o (SClass ms) i (MMap kvs').
 Proof. exact load_order_free. Qed.
 Print Assumptions T_C01_mp_load_order_free.
 
@@ -264,18 +330,20 @@ Proof. exact (conj ex_tup_roundtrip ex_tup_loads). Qed.
 Print Assumptions T_C01_mp_tuple_example.
 
 (* NOT PROVED / NOT MODELLED:
-   - std::map: MapLoadMode::OnlyExistKeys / UpdateKeys (load_tr has no initial target content; into a
-     value-initialised map UpdateKeys = Clean and OnlyExistKeys loads nothing); archive keys of another class
-     than the map's key type (text <-> number conversions, float / double / timestamp keys) and archive keys that
-     convert to the same K (the load into the element try_emplace found): load_tr is total but claims nothing
-     there, `modelled` (MpLoadModel.v) delimits it and the correspondence check skips those documents;
-     read_off for maps (the keys are not among the tokens); std::unordered_map (iteration order), multimap;
-   - enums, validation;
+   - std::map: archive keys of another class than the map's key type (text <-> number conversions, float / double /
+     timestamp keys) and archive keys that convert to the same K: load_tr is total but claims nothing there,
+     `modelled` (MpLoadModel.v) delimits it and the correspondence check skips those documents; read_off for maps
+     (the keys are not among the tokens); std::unordered_map (iteration order), multimap, set;
+   - targets that are NOT overwritten (classes, fixed-size arrays, tuples, maps in OnlyExistKeys / UpdateKeys): what a
+     member / element / component / mapped value that is not loaded holds afterwards is its content before (load_tr
+     says so; known finding F36 of C18, by design): no "populated = fresh" theorem there, T_C01_mp_load_save_into
+     covers the documents that load everything;
+   - enums, validation, smart pointers / optional;
    - loads that end in an exception: load_tr carries the policies and the error, but the program / transport
      theorems assume an error-free load (as T_C03_mp_refines does);
    - a scalar / string / byte container at the ROOT of the document on the scope model (the root scope's own
      SerializeValue is one typed read: T_C03_typed_read; not restated here);
    - the program elem_prog / member_prog itself is hand-written from serialization_base_types.h and
-     generic_container.h and depends on the document (loop while !IsEnd(), child programs only when the
-     scope was opened, binary -> array fallback): its tie to /repo is the correspondence of C01mp
-     (drv_mpload: LoadObject through the public API against load_bytes). *)
+     generic_container.h and depends on the document and on the content of the target (loop while !IsEnd(), child
+     programs only when the scope was opened, binary -> array fallback, find(key) for OnlyExistKeys): its tie to /repo is
+     the correspondence of C01mp (drv_mpload: LoadObject through the public API against load_bytes_into). *)
